@@ -117,13 +117,8 @@ class MultiWorld(Multi):
         check(closed == (not self.dirty), 'close of the primary connection accepted inside / refused outside a transaction',
               sorted(self.dirty))
         if not closed:
-            # the refusal changes nothing: the transaction can still be ended and the group closed normally
-            self.tm.abort()
-            self._boundary(False)
-            try:
-                self.c1.close()
-            except Exception as ex:
-                fail('connection cannot be closed after the refused close and an abort', type(ex).__name__, str(ex))
+            # the refusal changes nothing: the program goes on inside the same transaction with the same connections
+            return 'close_refused'
         self.open(self.transaction.TransactionManager())
         return 'close_reopen' if closed else 'close_refused'
 
